@@ -17,6 +17,7 @@ func (eng *Engine) newExec(fn *ssa.Function, con *Contract) *FuncExec {
 	fx.deferred = map[*ssa.Function][]deferRec{}
 	fx.curDefer = map[*ssa.CallCommon]deferCall{}
 	fx.nonNil = map[int]bool{}
+	fx.loopAutos = map[*ssa.BasicBlock][]autoInv{}
 	if con != nil {
 		fx.wrapSigned = con.Opts["wrapsigned"] == "true" || con.Opts["wrapsigned"] == "1"
 		fx.noSafety = con.NoSafety
@@ -170,7 +171,12 @@ type location struct {
 	ref   *Term  // object ref, or array id for element heaps
 	typ   types.Type
 	elems bool
+	off   *Term // element window [off, off+n) for elems
+	n     *Term
 }
+
+// window is a writable index range of one backing array.
+type window struct{ arr, off, n *Term }
 
 func (fx *FuncExec) evalModifies(con *Contract, env *cenv) (locs []location, err error) {
 	defer func() {
@@ -200,7 +206,7 @@ func (fx *FuncExec) evalModifies(con *Contract, env *cenv) (locs []location, err
 			if !ok {
 				cfail("contents(%s): not a slice", ex.Args[1].String())
 			}
-			locs = append(locs, location{key: elemHeapKey(s.elem), ref: s.arr, elems: true})
+			locs = append(locs, location{key: elemHeapKey(s.elem), ref: s.arr, elems: true, off: s.off, n: s.cap})
 		case ex.Kind == "unary" && ex.Op == "*":
 			v := env.eval(ex.Args[0])
 			p, ok := v.(VPtr)
@@ -288,10 +294,11 @@ func (fx *FuncExec) frameObligations(fn *ssa.Function, con *Contract, reach *Ter
 		fx.addObl("shape", "modifies", err.Error(), reach, ts.False())
 		return
 	}
-	allowed := map[string][]*Term{} // heap key -> refs/array ids that may change
+	allowed := map[string][]*Term{} // field array key -> refs that may change
+	wins := map[string][]window{}   // element heap key -> writable windows
 	for _, l := range locs {
 		if l.elems {
-			allowed[l.key] = append(allowed[l.key], l.ref)
+			wins[l.key] = append(wins[l.key], window{l.ref, l.off, l.n})
 			continue
 		}
 		f, e := fx.leafKeys(l.key, l.typ, l.ref)
@@ -299,7 +306,7 @@ func (fx *FuncExec) frameObligations(fn *ssa.Function, con *Contract, reach *Ter
 			allowed[k.key] = append(allowed[k.key], l.ref)
 		}
 		for _, k := range e {
-			allowed[k.heap] = append(allowed[k.heap], k.id)
+			wins[k.heap] = append(wins[k.heap], window{k.id, nil, nil})
 		}
 	}
 	alloc0 := fx.heapGet(fx.entry, allocKey, SInt)
@@ -320,6 +327,22 @@ func (fx *FuncExec) frameObligations(fn *ssa.Function, con *Contract, reach *Ter
 		}
 		r := ts.Bound("r", SInt)
 		conds := []*Term{ts.Lt(r, alloc0)}
+		if srt == SArr2 {
+			// arrays embedded in objects allocated by the body are new as well
+			conds = append(conds, ts.Lt(ts.Neg(ts.Mul(alloc0, ts.Int(1024))), ts.Add(r, ts.Int(1))))
+			j := ts.Bound("j", SInt)
+			// element j of existing array r is unchanged unless (r, j) lies in a window
+			for _, w := range wins[k] {
+				if w.off == nil {
+					conds = append(conds, ts.Ne(r, w.arr))
+				} else {
+					conds = append(conds, ts.Not(ts.And(ts.Eq(r, w.arr), ts.Le(w.off, j), ts.Lt(j, ts.Add(w.off, w.n)))))
+				}
+			}
+			goal := ts.Forall([]*Term{r, j}, ts.Implies(ts.And(conds...), ts.Eq(ts.Select(ts.Select(cur, r), j), ts.Select(ts.Select(h0, r), j))))
+			fx.addObl("frame", k, "only the locations named by modifies may change", reach, goal)
+			continue
+		}
 		for _, a := range allowed[k] {
 			conds = append(conds, ts.Ne(r, a))
 		}
@@ -359,8 +382,7 @@ func (fx *FuncExec) applyContract(st *State, reach *Term, callee *ssa.Function, 
 	}
 	for _, l := range locs {
 		if l.elems {
-			h := fx.heapGet(st, l.key, SArr2)
-			fx.heapSet(st, l.key, ts.Store(h, l.ref, ts.Fresh("mod."+l.key, SArr)))
+			fx.havocWindow(st, reach, l.key, l.ref, l.off, l.n)
 			continue
 		}
 		f, e := fx.leafKeys(l.key, l.typ, l.ref)
@@ -535,4 +557,17 @@ func (fx *FuncExec) frameFromPool(st *State, reach *Term, idx *Term, resType typ
 	merged := fx.mergeStates(conds, sts)
 	*st = *merged
 	return reach, fx.mergeValues(conds, vals, resType), true
+}
+
+// havocWindow forgets elements [off, off+n) of array arr in element heap hk.
+func (fx *FuncExec) havocWindow(st *State, reach *Term, hk string, arr, off, n *Term) {
+	ts := fx.ts
+	h := fx.heapGet(st, hk, SArr2)
+	old := ts.Select(h, arr)
+	nw := ts.Fresh("mod."+hk, SArr)
+	j := ts.Bound("j", SInt)
+	fx.addFact(reach, ts.Forall([]*Term{j},
+		ts.Implies(ts.Or(ts.Lt(j, off), ts.Le(ts.Add(off, n), j)), ts.Eq(ts.Select(nw, j), ts.Select(old, j))),
+		ts.Select(nw, j)))
+	fx.heapSet(st, hk, ts.Store(h, arr, nw))
 }
